@@ -17,6 +17,15 @@ REGISTRY = {
         'not_covered': ['CertAuth::apply dispatch (event -> apply_*), CaObjectsStore pre-save handlers', 'liveness: the roll always completes'],
     },
 }
+REGISTRY['C16'] = {
+    'v': [],
+    'k': ['k_api_roa'],
+    'level_text': 'Absence of arithmetic overflow, bad shifts, slice/index out of bounds and unwrap-None in the client-reachable pure helpers (api::roa prefix/payload algebra; more groups below), decided by CBMC over the full input domain of loop-free code (complete), string parsers bounded and labelled so. The CMS/XML/JSON decoders that take the raw bytes are not decided.',
+    'level_note': 'Harness inputs are built by constructors encoding the type invariants; overflow judged as in a debug build; rpki-rs/bcder/serde_json/hyper decoders are outside.',
+    'technique': 'Kani function contracts and full-domain loop-free harnesses (CBMC) on the real crate',
+    'design_ref': 'DESIGN.md section 5 / C16',
+    'not_covered': ['rpki-rs CMS and XML decoders, serde_json, hyper (the larger half of the statement)'],
+}
 
 NOT_APPLICABLE = [
     {'property_id': 'C06', 'reason': 'whole-history equality between three evaluation paths of a generic AggregateStore closure (replay = snapshot+tail = cache) plus serde round trips; no per-call contract expresses it (DESIGN.md section 6)'},
